@@ -48,6 +48,9 @@ CHECKS = {
  "C01": ("bounded-exhaustive enumeration of program families (index->program bijections) run on the real compiler+VM against an independent reference interpreter",
          "Every program of the families F-expr (all depth-1 expressions over a 16-leaf operand alphabet, depth 2 over one representative per distinct result), F-stmt (15 contexts x ordered pairs, thorough: triples, of a ~65-statement alphabet, epilogue logging every visible variable), F-nest, F-call, F-limits and the dedicated inline-Array family is compiled and run for real; result kind, globals by name and the host-call log with deep-converted arguments must equal the outcome of a tree-walking reference interpreter with named variables. Failures are delta-debugged to a canonical minimal program which is the finding key.",
          "Program shapes bounded by the families; behaviour the sources leave undefined (integer overflow, NaN, out-of-range Get, arity mismatches, reads of never-assigned globals after another assignment) is executed but not compared; open findings listed in KNOWN_FINDINGS.txt (inline Array operands, value-producing statements in loops).", "DESIGN.md §4 C01, §3"),
+ "C02": ("exhaustive enumeration of collection schedules (subsets of a run's allocation points: all 2^n for small n, all singles / pairs / triples / all / alternating otherwise) on the real VM with a quarantining collector, heap audit + operand audit + differential oracle",
+         "For every template (one per allocating site and operand shape, including the host allocation API: insert_value, every init_* constructor, CaoLangTable::insert from a host function) and every allocating program of the statement, call, closure, table, stdlib and re-entry families, the run is repeated with a collection forced at each chosen subset of its allocation requests through the real allocator (natural trigger off). Swept objects are poisoned and kept, so any later use is defined and visible. After each instruction during which a collection ran, and at the end, nothing reachable from value stack, globals, frame closures, open-upvalue list or guarded objects may be swept; operands that were on top of the stack at dispatch may not be swept when the instruction completes; the observable outcome must equal the run without collections. Exhaustive bounded exploration is the right level: a rooting defect needs a collection at one specific allocation of one specific instruction, which the schedule enumeration hits by construction.",
+         "At most 3 forced collections per run unless n is small enough for all subsets; memory safety is judged through the quarantine stand-in, not through a sanitizer; collections start only inside allocation requests.", "DESIGN.md §4 C02"),
  "C04": ("bounded-exhaustive enumeration of module trees / programs / host configurations in isolated worker processes with watchdogs; verdict = compile and run return",
          "Compile half: names x imports x positions, submodule depth 0..70, 16 card kinds nested up to depth 60 (thorough 120), locals 0..260, globals 0..64/600, arities x supplied arguments x parameter naming, closure nesting, 27 parent kinds x slot x 18 child classes (not restricted to well-scoped input). Run half: every C01 family (including the cases C01 does not compare) and 14 exhaustion programs x sizes x swept value-stack / call-stack sizes, memory limits and budgets, plus self-containing tables. A panic, abort, signal or watchdog expiry of the isolated worker is the violation; the dying worker is re-run in trace mode and resumed behind the crashing case so every crashing case of a unit is pinned.",
          "Only compiled well-scoped programs are run; stack size 0 is excluded (asserted by the constructor); cyclic tables in Eq/Hash/Ord are open findings.", "DESIGN.md §4 C04"),
